@@ -665,6 +665,38 @@ def _commutative_body(body, inf):
   return True
 
 
+def _read_by_key_only(mod, call):
+  """`call` builds a mapping that is bound to one local name whose every
+  other use is a lookup by key (`c[k]`, `c.get(k)`, `k in c`): the insertion
+  order of the mapping is never observed."""
+  par = mod.parent.get(call)
+  if not (isinstance(par, ast.Assign) and par.value is call and len(par.targets) == 1
+          and isinstance(par.targets[0], ast.Name)):
+    return False
+  name = par.targets[0].id
+  fn = mod.enclosing_function(par)
+  if fn is None or isinstance(fn, ast.Lambda):
+    return False
+  stores = 0
+  for n in ast.walk(fn):
+    if not (isinstance(n, ast.Name) and n.id == name):
+      continue
+    if isinstance(n.ctx, ast.Store):
+      stores += 1
+      continue
+    up = mod.parent.get(n)
+    if isinstance(up, ast.Subscript) and up.value is n and isinstance(up.ctx, ast.Load):
+      continue
+    if isinstance(up, ast.Attribute) and up.attr == "get" and isinstance(
+        mod.parent.get(up), ast.Call) and mod.parent[up].func is up:
+      continue
+    if isinstance(up, ast.Compare) and n in up.comparators and all(
+        isinstance(o, (ast.In, ast.NotIn)) for o in up.ops):
+      continue
+    return False
+  return stores == 1
+
+
 def _auto_insensitive(mod, inf, node, kind, expr):
   """Reason string when the consumer provably cannot observe the order."""
   if kind == "setcomp":
@@ -699,6 +731,9 @@ def _auto_insensitive(mod, inf, node, kind, expr):
         return f"consumed by {d}()"
       if d == "sum" and len(par.args) == 1 and not par.keywords:
         return "consumed by sum() (commutative)"
+      if d in ("collections.Counter", "Counter") and len(par.args) == 1 and \
+          not par.keywords and _read_by_key_only(mod, par):
+        return "counted into a Counter that is only read by key"
       if isinstance(par.func, ast.Attribute) and \
           par.func.attr in _SET_SINK_METHODS and inf.is_set(par.func.value, par):
         return f"consumed by set.{par.func.attr}()"
@@ -1031,6 +1066,9 @@ _SAFE_WHOLE_PACKAGE = {
 }
 
 
+_LOOP_KINDS = ("for", "listcomp", "genexp", "dictcomp")
+
+
 def _is_private_helper(qual):
   last = qual.rsplit(".", 1)[-1]
   return last.startswith("_") and not (last.startswith("__") and last.endswith("__"))
@@ -1085,6 +1123,22 @@ def _run_set_rule(ctx, files, table):
         ctx.ok(construct, rel, site["line"], facts | {"triaged": table[key][1]})
         continue
       pending.append((site, construct, facts))
+    # a triaged loop rewritten as a comprehension (or back) is the same walk of
+    # the same expression in the same function: it may use the entry's budget
+    # of the sibling kind once the exact kinds have been served
+    still = []
+    for site, construct, facts in pending:
+      key = (rel, site["qual"], site["expr"])
+      alt = [k for k in _LOOP_KINDS if site["kind"] in _LOOP_KINDS and key in table
+             and budget[key][k] > 0]
+      if alt:
+        budget[key][alt[0]] -= 1
+        seen.add(key)
+        ctx.ok(construct, rel, site["line"],
+               facts | {"triaged": table[key][1], "triaged_as_kind": alt[0]})
+        continue
+      still.append((site, construct, facts))
+    pending = still
     # walks left over: the triaged loop may have been moved, as it is, into a
     # private helper of the triaged function (its own budget is then unused)
     for site, construct, facts in pending:
@@ -1114,12 +1168,31 @@ EXPLANATION = (
     "pytd/pytd.py, errors/errors.py, imports/pickle_utils.py, "
     "pytd/serialize_ast.py and pytd/printer.py: R4.1 the AST stored in "
     "ret.ast by generate_pyi_ast is the result of CanonicalOrdering applied "
-    "to the result of Optimize, and generate_pyi prints exactly that; R4.2 "
+    "to the result of Optimize, and generate_pyi prints exactly that (the "
+    "stored value is followed through local names and into functions of "
+    "io.py that return it, so the Optimize -> CanonicalOrdering tail may sit "
+    "in a helper; every return of such a helper must qualify); R4.2 "
     "CanonicalOrderingVisitor sorts every tuple field of TypeDeclUnit, Class, "
     "Signature and UnionType (fields read from the pytd schema) except the "
-    "listed order-significant ones; R4.3 the error report is produced only "
-    "through unique_sorted_errors over a (filename, line) sort; R4.4 the "
-    "msgpack encoder is deterministic, the gzip header is constant, what "
+    "listed order-significant ones; a call of a module-level one-line helper "
+    "(`def H(x): return tuple(sorted(x))`) is read as its body, a conditional "
+    "expression contributes both arms with its test as their guard, and "
+    "Class.constants may stay unsorted only where a statement guard or such "
+    "a test calls, on the visited class and with positive polarity, a "
+    "predicate of the visitor / module that returns True only under a test "
+    "of the class's decorators or bases (any(.. for d in cls.decorators), "
+    "IsNamedTuple(cls), or-combinations of these); R4.3 the error report is "
+    "produced only "
+    "through unique_sorted_errors over a (filename, line) sort (the key may "
+    "be a lambda or a module-level `def key(e): return (..)`), whose result "
+    "is the flattening - sum(D.values(), []), list(chain.from_iterable("
+    "D.values())) or [e for g in D.values() for e in g] - of a local dict "
+    "that starts empty and receives its keys only inside the walk over "
+    "self._sorted_errors(); R4.4 the "
+    "msgpack encoder is deterministic, the gzip header is constant (the one "
+    "GzipFile(...) that Save or a pickle_utils function called from Save "
+    "builds has filename=\"\" and an mtime that folds to a number, also "
+    "through a module constant that is bound once), what "
     "Serialize / SerializeAndSave hand to Encode / Save is the result of "
     "serialize_ast.SerializeAst and the dependency lists given to "
     "SerializableAst are sorted; R4.5 the printer sorts import lines, "
@@ -1141,8 +1214,12 @@ EXPLANATION = (
     "together with the private helpers (leading underscore, at most two "
     "levels) whose only callers inside the module are that function / "
     "those helpers, so a triaged loop moved as it is into such a helper "
-    "is the same site, while the number of walks of each kind per entry "
-    "stays bounded by the entry.  The set "
+    "is the same site, and so is a triaged loop rewritten as a "
+    "comprehension / generator expression or back (for, listcomp, genexp, "
+    "dictcomp share the budget), while the number of walks per entry "
+    "stays bounded by the entry; a walk counted into a "
+    "collections.Counter bound to a local that is only read by key "
+    "(c[k], c.get(k), k in c) is order-free.  The set "
     "inference is intra-procedural plus two module-local steps: the result "
     "of `d.keys()/d.items() <-|&^> x` is a set (dict-view set algebra, "
     "whatever x is); a call that resolves to a function of the same module "
@@ -2689,6 +2766,32 @@ _SOLVE_SPLIT = [
      "      d, something_changed = self._simplify_implications(assignments)\n"),
 ]
 
+_FINALIZE_EDITS = [
+    (IO, "    mod = ret.ast\n    mod.Visit(visitors.VerifyVisitor())\n    mod = optimize.Optimize(\n        mod,\n        ret.ast_deps,\n        lossy=False,\n        use_abcs=False,\n        max_union=7,\n        remove_mutable=False,\n    )\n    mod = pytd_utils.CanonicalOrdering(mod)\n",
+     "    mod = _finalize_inferred_ast(ret.ast, ret.ast_deps)\n"),
+    (IO, "def generate_pyi_ast(\n",
+     "def _finalize_inferred_ast(mod, ast_deps):\n  mod.Visit(visitors.VerifyVisitor())\n  mod = optimize.Optimize(\n      mod,\n      ast_deps,\n      lossy=False,\n      use_abcs=False,\n      max_union=7,\n      remove_mutable=False,\n  )\n  return pytd_utils.CanonicalOrdering(mod)\n\n\ndef generate_pyi_ast(\n"),
+]
+_SORTED_TUPLE_EDITS = [
+    (PYTD_VISITORS, "class CanonicalOrderingVisitor(base_visitor.Visitor):",
+     "def _SortedTuple(items):\n  return tuple(sorted(items))\n\n\nclass CanonicalOrderingVisitor(base_visitor.Visitor):"),
+    (PYTD_VISITORS, "        functions=tuple(sorted(node.functions)),", "        functions=_SortedTuple(node.functions),"),
+    (PYTD_VISITORS, "        methods=tuple(sorted(node.methods)),", "        methods=_SortedTuple(node.methods),"),
+    (PYTD_VISITORS, "        exceptions=tuple(sorted(node.exceptions)),", "        exceptions=_SortedTuple(node.exceptions),"),
+    (PYTD_VISITORS, "    return pytd.UnionType(tuple(sorted(node.type_list)))", "    return pytd.UnionType(_SortedTuple(node.type_list))"),
+]
+_CONSTANTS_IF = ("    if self._PreserveConstantsOrdering(node):\n      constants = node.constants\n"
+                 "    else:\n      constants = sorted(node.constants)\n")
+_GZIP_HELPER_EDITS = [
+    (PICKLE, "def Save(\n",
+     "_GZIP_MTIME = 1.0\n\n\ndef _DeterministicGzipWriter(fi):\n  return gzip.GzipFile(filename=\"\", mode=\"wb\", fileobj=fi, mtime=_GZIP_MTIME)\n\n\ndef Save(\n"),
+    (PICKLE, "      with gzip.GzipFile(filename=\"\", mode=\"wb\", fileobj=fi, mtime=1.0) as zfi:",
+     "      with _DeterministicGzipWriter(fi) as zfi:"),
+]
+_COVER_LOOP = ("    c = collections.Counter()\n    for t in set(union.type_list):\n"
+               "      if isinstance(t, pytd.GENERIC_BASE_TYPE):\n"
+               "        c += collections.Counter(self.hierarchy.ExpandSubClasses(str(t)))\n")
+
 VARIANTS = [
     # -- R4.1 ---------------------------------------------------------------
     {"name": "drop-CanonicalOrdering", "rule": "R4.1", "file": IO, "expect": "fire",
@@ -2860,6 +2963,82 @@ VARIANTS = [
     {"name": "save-receives-unserialised-ast", "rule": "R4.4", "file": "pytype/imports/pickle_utils.py", "expect": "fire",
      "old": "  out = serialize_ast.SerializeAst(ast, src_path, metadata)\n  Save(out, filename, compress, open_function)\n",
      "new": "  Save(ast, filename, compress, open_function)\n"},
+    # second batch of refactorings: helpers, named key functions, conditional expressions
+    {"name": "twin-benign-C04-r1-errors-helper-named-key", "rule": "R4.3", "patch": "benign/C04-r1/patch.diff", "expect": "silent"},
+    {"name": "twin-benign-C04-r2-sortedtuple-helper", "rule": "R4.2", "patch": "benign/C04-r2/patch.diff", "expect": "silent"},
+    {"name": "twin-benign-C04-r4-finalize-helper-gzip-writer", "rule": "R4.1", "patch": "benign/C04-r4/patch.diff", "expect": "silent"},
+    {"name": "twin-benign-C11-r4-counter-genexp", "rule": "R4.6", "patch": "benign/C11-r4/patch.diff", "expect": "silent"},
+    {"name": "twin-finalize-helper", "rule": "R4.1", "expect": "silent", "edits": _FINALIZE_EDITS},
+    {"name": "finalize-helper-skips-canonical-ordering", "rule": "R4.1", "expect": "fire",
+     "edits": [_FINALIZE_EDITS[0],
+               (IO, _FINALIZE_EDITS[1][1], _FINALIZE_EDITS[1][2].replace("  return pytd_utils.CanonicalOrdering(mod)\n", "  return mod\n"))]},
+    {"name": "finalize-helper-canonicalises-before-optimizing", "rule": "R4.1", "expect": "fire",
+     "edits": [_FINALIZE_EDITS[0],
+               (IO, _FINALIZE_EDITS[1][1], _FINALIZE_EDITS[1][2]
+                .replace("  mod = optimize.Optimize(\n      mod,", "  mod = pytd_utils.CanonicalOrdering(mod)\n  mod = optimize.Optimize(\n      mod,")
+                .replace("  return pytd_utils.CanonicalOrdering(mod)\n", "  return mod\n"))]},
+    {"name": "finalize-helper-one-path-uncanonical", "rule": "R4.1", "expect": "fire",
+     "edits": [_FINALIZE_EDITS[0],
+               (IO, _FINALIZE_EDITS[1][1], _FINALIZE_EDITS[1][2]
+                .replace("  return pytd_utils.CanonicalOrdering(mod)\n", "  if ast_deps is None:\n    return mod\n  return pytd_utils.CanonicalOrdering(mod)\n"))]},
+    {"name": "twin-sorted-tuple-helper", "rule": "R4.2", "expect": "silent", "edits": _SORTED_TUPLE_EDITS},
+    {"name": "sorted-tuple-helper-does-not-sort", "rule": "R4.2", "expect": "fire",
+     "edits": [(PYTD_VISITORS, _SORTED_TUPLE_EDITS[0][1], _SORTED_TUPLE_EDITS[0][2].replace("return tuple(sorted(items))", "return tuple(items)"))]
+              + _SORTED_TUPLE_EDITS[1:]},
+    {"name": "twin-constants-by-conditional-expression", "rule": "R4.2", "file": PYTD_VISITORS, "expect": "silent",
+     "old": _CONSTANTS_IF, "new": "    constants = (\n        tuple(node.constants)\n        if self._PreserveConstantsOrdering(node)\n        else sorted(node.constants)\n    )\n"},
+    {"name": "constants-conditional-expression-inverted", "rule": "R4.2", "file": PYTD_VISITORS, "expect": "fire",
+     "old": _CONSTANTS_IF, "new": "    constants = (\n        sorted(node.constants)\n        if self._PreserveConstantsOrdering(node)\n        else tuple(node.constants)\n    )\n"},
+    {"name": "constants-conditional-on-something-else", "rule": "R4.2", "file": PYTD_VISITORS, "expect": "fire",
+     "old": _CONSTANTS_IF, "new": "    constants = (\n        tuple(node.constants)\n        if len(node.constants) > 3\n        else sorted(node.constants)\n    )\n"},
+    {"name": "twin-preserve-predicate-as-module-function", "rule": "R4.2", "expect": "silent",
+     "edits": [(PYTD_VISITORS, "class CanonicalOrderingVisitor(base_visitor.Visitor):",
+                "def _HasOrderedConstants(cls):\n  return any(\n      d.name in (\"attr.s\", \"dataclasses.dataclass\") for d in cls.decorators\n  ) or IsNamedTuple(cls)\n\n\nclass CanonicalOrderingVisitor(base_visitor.Visitor):"),
+               (PYTD_VISITORS, "    if self._PreserveConstantsOrdering(node):\n      constants = node.constants",
+                "    if _HasOrderedConstants(node):\n      constants = node.constants")]},
+    {"name": "preserve-predicate-module-function-always-true", "rule": "R4.2", "expect": "fire",
+     "edits": [(PYTD_VISITORS, "class CanonicalOrderingVisitor(base_visitor.Visitor):",
+                "def _HasOrderedConstants(cls):\n  return True or IsNamedTuple(cls)\n\n\nclass CanonicalOrderingVisitor(base_visitor.Visitor):"),
+               (PYTD_VISITORS, "    if self._PreserveConstantsOrdering(node):\n      constants = node.constants",
+                "    if _HasOrderedConstants(node):\n      constants = node.constants")]},
+    {"name": "twin-sort-key-named-function", "rule": "R4.3", "expect": "silent",
+     "edits": [(ERRORS, "def _function_name(name, capitalize=False):",
+                "def _error_position(error):\n  return (error.filename or \"\", error.line)\n\n\ndef _function_name(name, capitalize=False):"),
+               (ERRORS, "    return sorted(self._errors, key=lambda x: (x.filename or \"\", x.line))",
+                "    return sorted(self._errors, key=_error_position)")]},
+    {"name": "sort-key-named-function-drops-line", "rule": "R4.3", "expect": "fire",
+     "edits": [(ERRORS, "def _function_name(name, capitalize=False):",
+                "def _error_position(error):\n  return (error.filename or \"\", error.name)\n\n\ndef _function_name(name, capitalize=False):"),
+               (ERRORS, "    return sorted(self._errors, key=lambda x: (x.filename or \"\", x.line))",
+                "    return sorted(self._errors, key=_error_position)")]},
+    {"name": "twin-unique-errors-flattened-by-comprehension", "rule": "R4.3", "file": ERRORS, "expect": "silent",
+     "old": "    return sum(unique_errors.values(), [])",
+     "new": "    return [e for group in unique_errors.values() for e in group]"},
+    {"name": "unique-errors-flattening-other-dict", "rule": "R4.3", "file": ERRORS, "expect": "error",
+     "old": "    return sum(unique_errors.values(), [])",
+     "new": "    by_name = {}\n    for group in unique_errors.values():\n      for e in group:\n        by_name.setdefault(e.name, []).append(e)\n    return [e for group in by_name.values() for e in group]"},
+    {"name": "twin-gzip-writer-helper-named-mtime", "rule": "R4.4", "expect": "silent", "edits": _GZIP_HELPER_EDITS},
+    {"name": "gzip-writer-helper-live-mtime", "rule": "R4.4", "expect": "fire",
+     "edits": [(PICKLE, _GZIP_HELPER_EDITS[0][1], _GZIP_HELPER_EDITS[0][2].replace("_GZIP_MTIME = 1.0", "_GZIP_MTIME = time.time()"))]
+              + _GZIP_HELPER_EDITS[1:]},
+    {"name": "gzip-writer-helper-mtime-rebound-later", "rule": "R4.4", "expect": "fire",
+     "edits": [(PICKLE, _GZIP_HELPER_EDITS[0][1], _GZIP_HELPER_EDITS[0][2].replace("_GZIP_MTIME = 1.0\n", "_GZIP_MTIME = 1.0\n_GZIP_MTIME = None\n"))]
+              + _GZIP_HELPER_EDITS[1:]},
+    {"name": "gzip-writer-helper-keeps-filename", "rule": "R4.4", "expect": "fire",
+     "edits": [(PICKLE, _GZIP_HELPER_EDITS[0][1], _GZIP_HELPER_EDITS[0][2].replace("filename=\"\", ", ""))]
+              + _GZIP_HELPER_EDITS[1:]},
+    {"name": "twin-superclass-cover-counted-by-genexp", "rule": "R4.6", "file": "pytype/pytd/optimize.py", "expect": "silent",
+     "old": _COVER_LOOP,
+     "new": "    c = collections.Counter(\n        name\n        for t in set(union.type_list)\n        if isinstance(t, pytd.GENERIC_BASE_TYPE)\n        for name in self.hierarchy.ExpandSubClasses(str(t))\n    )\n"},
+    {"name": "counter-of-a-set-walk-iterated-afterwards", "rule": "R4.6", "file": "pytype/pytd/optimize.py", "expect": "fire",
+     "old": _COVER_LOOP,
+     "new": _COVER_LOOP + "    names = collections.Counter(str(t) for t in frozenset(union.type_list))\n    first_seen = list(names)\n"},
+    {"name": "twin-counter-of-a-set-walk-read-by-key", "rule": "R4.6", "file": "pytype/pytd/optimize.py", "expect": "silent",
+     "old": _COVER_LOOP,
+     "new": _COVER_LOOP + "    names = collections.Counter(str(t) for t in frozenset(union.type_list))\n    first_seen = names[\"int\"] + names.get(\"str\", 0)\n"},
+    {"name": "second-walk-added-as-comprehension-next-to-triaged-loop", "rule": "R4.6", "file": "pytype/pytd/optimize.py", "expect": "fire",
+     "old": _COVER_LOOP,
+     "new": _COVER_LOOP + "    first_seen = [str(t) for t in set(union.type_list)]\n"},
     # -- R4.5 ---------------------------------------------------------------
     {"name": "typevars-unsorted", "rule": "R4.5", "file": PRINTER, "expect": "fire",
      "old": "    return sorted(formatted_type_params)", "new": "    return formatted_type_params"},
